@@ -131,7 +131,8 @@ Print Assumptions C10_fragmentation_irrelevant.
 
 (* HONEST TRANSFER COMPLETES.  If moreover r passes the client's checks, the body has the announced length and hashes
    to the requested hash, then for every cutting into segments AND every placement of event-loop runs between them,
-   one more loop run ends the download "ok" with the verified byte-identical blob and the connection kept. *)
+   one more loop run ends the download "ok" with the verified byte-identical blob and the connection kept
+   (sched_ok: segments are non-empty - asyncio never delivers an empty one - and only segments and loop runs occur). *)
 Theorem C10_honest_transfer_completes :
   forall (H : bytes -> bytes) (json_loads : bytes -> jres) (hdr : bytes) (r : response) (hash : bytes) (n : Z) (body : bytes),
     json_loads hdr = JResp r ->
@@ -296,6 +297,17 @@ Theorem C10_old_condition_refuted :
         c_open c = false /\ c_lost c = true /\ w_data (c_w c) = [] /\ c_received c = 0.
 Proof. exact old_condition_refuted. Qed.
 Print Assumptions C10_old_condition_refuted.
+
+(* IDLE KEPT CONNECTION (fix a1a028a).  For every history of a request: once the download has ended (ok, closed or
+   cancelled) and the connection is still open, the next segment the peer sends - excess or unsolicited bytes - closes it. *)
+Theorem C10_idle_connection_closes_on_data :
+  forall (H : bytes -> bytes) (json_loads : bytes -> jres) (c0 : client) (hash : bytes) (known : option Z) (evs : list event)
+         (res : dlres) (d : bytes),
+    let c := run H json_loads (request hash known c0) evs in
+    c_phase c = PhDone res -> c_open c = true ->
+    c_open (step H json_loads c (EvData d)) = false.
+Proof. exact idle_connection_closes_on_data. Qed.
+Print Assumptions C10_idle_connection_closes_on_data.
 
 (* ONE DOWNLOAD PER PROTOCOL.  Why BlobDownloader must not hand a busy keep-alive connection to a second download:
    download_blob overwrites blob / writer / future, and the honest header answering the FIRST request is then
